@@ -107,13 +107,13 @@ func NewWriter(writerOptions ...WriterOption) (WriterI, error) {
 			return nil, errors.New("path was not supplied")
 		}
 		if opts.useDirectIO {
-			f, err := directio.OpenFile(opts.path, os.O_WRONLY|os.O_CREATE, 0666)
+			f, err := directio.OpenFile(opts.path, os.O_WRONLY|os.O_CREATE|os.O_TRUNC, 0666)
 			if err != nil {
 				return nil, err
 			}
 			opts.file = f
 		} else {
-			f, err := os.OpenFile(opts.path, os.O_WRONLY|os.O_CREATE, 0666)
+			f, err := os.OpenFile(opts.path, os.O_WRONLY|os.O_CREATE|os.O_TRUNC, 0666)
 			if err != nil {
 				return nil, err
 			}
